@@ -71,8 +71,8 @@ std::unique_ptr<custom_recursive_mutex> create_custom_recursive_mutex() { return
 
 // ------------------------------------------------------------------------------------------
 // program description
-enum TOp { T_CALL = 0, T_CREATE, T_RELEASE, T_QSAT, T_QSATU, T_QCOMP, T_WATCH, T_KILL, T_UNWATCH, T_MOCKLIFE, T_SREL, T_SKILL, T_SWATCH, NTOP };
-static const char* top_name[] = {"call", "create", "release", "is_satisfied", "is_saturated", "is_completed", "watch", "kill", "unwatch", "mocklife", "srelease", "skill", "swatch"};
+enum TOp { T_CALL = 0, T_CREATE, T_RELEASE, T_QSAT, T_QSATU, T_QCOMP, T_WATCH, T_KILL, T_UNWATCH, T_MOCKLIFE, T_SREL, T_SKILL, T_SWATCH, T_ADOPT, NTOP };
+static const char* top_name[] = {"call", "create", "release", "is_satisfied", "is_saturated", "is_completed", "watch", "kill", "unwatch", "mocklife", "srelease", "skill", "swatch", "adopt"};
 // create forms (compile time): how sequences and bounds are spelled
 enum Form { FM_PLAIN = 0, FM_SEQ_RT, FM_RT_SEQ, FM_SEQ2_RT, FM_SEQ_TIMES2, FM_SEQ_ONLY, NFORM };
 struct Op {
@@ -165,6 +165,10 @@ struct World {
   std::unique_ptr<trompeloeil::expectation> mon[MAXTH + 1];
   Mk1* own_mock[MAXTH + 1] = {};
   std::unique_ptr<trompeloeil::expectation> own_exp[MAXTH + 1];
+  // an expectation on a thread's private mock handed over to whichever thread takes it first (T_ADOPT, or the owner when
+  // it destroys the mock): release of an expectation by one thread while another destroys the mock object
+  std::atomic<trompeloeil::expectation*> orphan[MAXTH + 1] = {};
+  int orphan_id[MAXTH + 1] = {};
   // shared deathwatched objects: created (with two requirements each) before the workers start; object i is destroyed
   // by thread i % n, its requirement j is released by thread (i + j + 1) % n - so a release can overlap the death
   trompeloeil::deathwatched<Dw>* sdw[2] = {};
@@ -504,6 +508,17 @@ static void run_op(int tid, int opi, const Op& o, std::vector<int>& slot_id, int
         res = "watched";
         break;
       }
+      case T_ADOPT: {
+        // take over (and release) the expectation another thread published for its private mock
+        if (tid < 0) { res = "skip"; break; }
+        int x = (tid + 1 + o.a % (Wd->nthreads > 1 ? Wd->nthreads - 1 : 1)) % Wd->nthreads;
+        auto* p = Wd->orphan[x].exchange(nullptr, std::memory_order_acq_rel);
+        if (!p) { res = "skip"; break; }
+        ev(E_DESTROY, Wd->orphan_id[x]);
+        delete p;
+        res = "adopted";
+        break;
+      }
       case T_SKILL: {
         int i = o.a % 2;
         if (tid >= 0 && tid != i % Wd->nthreads) { res = "skip"; break; }
@@ -534,14 +549,18 @@ static void run_op(int tid, int opi, const Op& o, std::vector<int>& slot_id, int
             Wd->own_exp[oi] = NAMED_REQUIRE_CALL(*Wd->own_mock[oi], f(trompeloeil::_)).RT_TIMES(static_cast<size_t>(lo), static_cast<size_t>(hi)).RETURN(id);
           }
           ownexp_id = id;
+          if ((o.a / 8) % 2) {   // hand the expectation over: published with release order, taken with an atomic exchange
+            Wd->orphan_id[oi] = id;
+            Wd->orphan[oi].store(Wd->own_exp[oi].release(), std::memory_order_release);
+          }
           res = "own-created";
         } else {
           if (o.b % 2) { ev(E_CALL, 0, mi, 0, 1); int r = Wd->own_mock[oi]->f(1); res = "R:" + std::to_string(r) + ";"; }
           ev(E_OWNMOCK_DTOR, 0, mi);
           delete Wd->own_mock[oi];
           Wd->own_mock[oi] = nullptr;
-          ev(E_DESTROY, ownexp_id);
-          Wd->own_exp[oi].reset();
+          if (Wd->own_exp[oi]) { ev(E_DESTROY, ownexp_id); Wd->own_exp[oi].reset(); }
+          else if (auto* p = Wd->orphan[oi].exchange(nullptr, std::memory_order_acq_rel)) { ev(E_DESTROY, ownexp_id); delete p; }
           ownexp_id = -1;
           res += "own-destroyed";
         }
@@ -579,6 +598,7 @@ static std::string expected_observation(const OpRec& r, const std::vector<std::s
       break;
     case T_CREATE: res = r.events.empty() ? "skip" : "created"; break;
     case T_RELEASE: res = r.events.empty() ? "skip" : "released"; if (!r.events.empty() && !evres[0].empty()) add_reports(evres[0]); break;
+    case T_ADOPT: res = r.events.empty() ? "skip" : "adopted"; if (!r.events.empty() && !evres[0].empty()) add_reports(evres[0]); break;
     case T_QSAT: case T_QSATU: res = r.events.empty() ? "skip" : evres[0]; break;
     case T_QCOMP: res = evres[0]; break;
     case T_SWATCH:
@@ -908,7 +928,8 @@ static rc::Gen<Op> gen_op(bool prologue) {
     else if (k < 89) o.kind = T_WATCH;
     else if (k < 92) o.kind = T_KILL;
     else if (k < 94) o.kind = T_UNWATCH;
-    else if (k < 96) o.kind = T_MOCKLIFE;
+    else if (k < 95) o.kind = T_MOCKLIFE;
+    else if (k < 96) o.kind = T_ADOPT;
     else if (k < 98) o.kind = T_SREL;
     else if (k < 99) o.kind = T_SKILL;
     else o.kind = T_SWATCH;
@@ -919,7 +940,8 @@ static rc::Gen<Op> gen_op(bool prologue) {
       case T_RELEASE: case T_QSAT: case T_QSATU: o.a = small(2); break;
       case T_QCOMP: o.a = small(3) ? 0 : 1; break;
       case T_WATCH: o.a = small(2); o.b = small(3) ? 0 : 1; break;
-      case T_MOCKLIFE: o.a = small(8); o.b = small(2); break;
+      case T_MOCKLIFE: o.a = small(16); o.b = small(2); break;
+      case T_ADOPT: o.a = small(4); break;
       case T_SREL: o.a = small(2); o.b = small(3); break;
       case T_SKILL: case T_SWATCH: o.a = small(2); break;
       default: break;
